@@ -3,6 +3,7 @@ C12 helper lemmas: `insRow` / `exec` preserve `Inv0`, INSERT enforces NOT NULL, 
 the uniqueness read.
 -/
 import ImmuModel.Sql.Proofs.DmlUpsert
+import ImmuModel.Sql.Proofs.PlanMain
 namespace ImmuModel.Sql.DmlMainAux
 open ImmuModel ImmuModel.Sql ImmuModel.Sql.DmlListAux ImmuModel.Sql.DmlUpsertAux
 
@@ -13,6 +14,53 @@ theorem liftE_ok {α : Type} {x : Except EvalErr α} {a : α} (h : liftE x = .ok
   cases x with
   | ok b => simpa [liftE] using h
   | error e => cases e <;> simp [liftE] at h
+
+/-- a successful `encodedKey` loop: no NULL among the key values, and the bytes are the plain tuple
+encoding (`pkEnc`) -/
+theorem encKeyCols_ok : ∀ (pc : List Col) (pv : List Val) (k : Bytes),
+    encKeyCols pc pv = .ok k → pv.any (· == Val.null) = false ∧ encodeTuple pc pv = .ok k
+  | [], [], k, h => by
+    simp only [encKeyCols, Except.ok.injEq] at h
+    subst h
+    exact ⟨rfl, rfl⟩
+  | [], _ :: _, k, h => by simp [encKeyCols] at h
+  | _ :: _, [], k, h => by simp [encKeyCols] at h
+  | c :: cs, v :: vs, k, h => by
+    unfold encKeyCols at h
+    split at h
+    · cases h
+    next hv =>
+    split at h
+    · cases h
+    · cases h
+    next e n he =>
+    split at h
+    · cases h
+    next r hr =>
+    simp only [Except.ok.injEq] at h
+    subst h
+    obtain ⟨ih1, ih2⟩ := encKeyCols_ok cs vs r hr
+    refine ⟨?_, ?_⟩
+    · simp only [List.any_cons, ih1, Bool.or_false]
+      exact Bool.eq_false_iff.2 hv
+    · simp only [encodeTuple, he, ih2]
+
+theorem encodedKey_ok {s : Schema} {row : Row} {k : Bytes} (h : encodedKey s row = .ok k) :
+    ∃ pv, pick row s.pk = .ok pv ∧ pv.any (· == Val.null) = false ∧ pkEnc s row = .ok k := by
+  unfold encodedKey at h
+  obtain ⟨pc, hpc, h⟩ := bind_ok h
+  obtain ⟨pv, hpv, h⟩ := bind_ok h
+  obtain ⟨hany, henc⟩ := encKeyCols_ok pc pv k h
+  refine ⟨pv, liftE_ok hpv, hany, ?_⟩
+  unfold pkEnc
+  rw [hpc, hpv]
+  simp only [bind, Except.bind, encTuple, henc, liftE]
+
+/-- UPDATE / DELETE … WHERE p read only rows of the table that satisfy p, each at most once -/
+theorem selectRows_sound {s : Schema} {rows hit : List Row} {p : Pred}
+    (h : selectRows s rows (some p) = .ok hit) :
+    (∃ l : List Row, l.Perm rows ∧ hit.Sublist l) ∧ ∀ r ∈ hit, keeps p r = .ok true :=
+  PlanAux.planRows_sound (liftE_ok h)
 
 /-- fields of the state that the integrity invariants speak about -/
 def sameData (a b : DB) : Prop :=
@@ -135,14 +183,11 @@ theorem insRow_ok {s : Schema} {k : InsKind} {cols : List Nat} {vals : List Val}
   obtain ⟨⟨row, db1, must⟩, hb, h⟩ := bind_ok h
   simp only at h
   obtain ⟨u, _, h⟩ := bind_ok h
-  obtain ⟨pv, hpv, h⟩ := bind_ok h
+  obtain ⟨key, hkey, h⟩ := bind_ok h
+  obtain ⟨pv, hpv, hany, _⟩ := encodedKey_ok hkey
   split at h
   · cases h
-  next hany =>
-  obtain ⟨key, _, h⟩ := bind_ok h
-  split at h
-  · cases h
-  refine ⟨row, db1, must, _, pv, hb, liftE_ok hpv, Bool.eq_false_iff.2 hany, ?_⟩
+  refine ⟨row, db1, must, _, pv, hb, hpv, hany, ?_⟩
   split at h
   · split at h
     · simp only [pure, Except.pure, Except.ok.injEq] at h
@@ -189,24 +234,19 @@ theorem exec_inv0 {s : Schema} {db db' : DB} {st : Stmt}
     exact foldlM_inv (Inv0 s) (fun d vals d' hd hstep => insRow_inv0 hd hstep) hi he
   | upd sets w =>
     simp only [exec, throw_bind] at he
-    obtain ⟨ord, _, he⟩ := bind_ok he
-    obtain ⟨hit, _, he⟩ := bind_ok he
     split at he
     · cases he
+    obtain ⟨hit, _, he⟩ := bind_ok he
     refine foldlM_inv (Inv0 s) ?_ hi he
     intro d old d' hd hstep
     obtain ⟨new, _, hstep⟩ := bind_ok hstep
     obtain ⟨u, _, hstep⟩ := bind_ok hstep
-    obtain ⟨pv, _, hstep⟩ := bind_ok hstep
-    split at hstep
-    · cases hstep
     obtain ⟨key, _, hstep⟩ := bind_ok hstep
     split at hstep
     · cases hstep
     exact doUpsert_inv0 hd hstep
   | del w =>
     simp only [exec] at he
-    obtain ⟨ord, _, he⟩ := bind_ok he
     obtain ⟨hit, _, he⟩ := bind_ok he
     refine foldlM_inv (Inv0 s) ?_ hi he
     intro d old d' hd hstep
